@@ -55,14 +55,16 @@ def write_and_read(moves, rewards, loose, p_tile, p_robot, p_light, manual=False
             cwd = os.getcwd()
             os.chdir(d)
             try:
-                mb.create_sg_from_board(moves, rewards, loose, p_robot, p_light, p_tile)
+                mb.create_sg_from_board(moves=moves, rewards=rewards, loose_tiles=loose, prob_robot_break=p_robot,
+                                        prob_light_break=p_light, prob_tile_break=p_tile)
             finally:
                 os.chdir(cwd)
             files = os.listdir(os.path.join(d, "inputs"))
             path = os.path.join(d, "inputs", files[0])
         else:
             path = os.path.join(d, "b.py")
-            rg.write_robots(path, L, W, moves, rewards, loose, p_tile, p_robot, p_light)
+            rg.write_robots(file_name=path, length=L, width=W, moves=moves, rewards=rewards, loose_tiles=loose,
+                            prob_tile_break=p_tile, prob_robot_break=p_robot, prob_light_break=p_light)
         return cr.read_dict_from_file(path)
 
 
@@ -106,8 +108,49 @@ def decide_board(idx, cls, moves, rewards, loose, p_tile, p_robot, p_light, manu
     return res
 
 
+def decide_cli(idx, seed0):
+    """The whole user path: roberta_generator.main() with command-line parameters in a scratch directory; the board is
+    regenerated with the same gen_rnd_board arguments and the file's games must be bisimilar to ITS rules with the
+    probabilities that were passed on the command line."""
+    from . import gen_common as gc
+    rg = monitors.mods()["roberta_generator"]
+    cr = monitors.mods()["conditionalrewards"]
+    rng = games.case_rng(seed0, PID, "CLI", idx)
+    ks = rng.sample(range(2, 95), 4)
+    p = dict(seed=rng.randrange(10 ** 6), width=rng.choice([1, 2, 3, 4]), length=rng.choice([1, 2, 3, 4]), max_reward=rng.choice([1, 6, 20]),
+             p_robot=ks[0] / 100, p_light=ks[1] / 100, p_tile=ks[2] / 100, p_loose=rng.choice([.3, .5, .9]), force_down=rng.random() < 0.5)
+    argv = gc.gen_argv(p["seed"], p["width"], p["length"], p["p_robot"], p["p_light"], p["p_tile"], p["p_loose"], p["max_reward"], p["force_down"])
+    res = {"idx": idx, "verdict": "held", "tags": ["CLI"], "stats": {"boards": 1, "cli_runs": 1}, "key": repr(sorted(p.items())), "nontrivial": True}
+    with gc.Scratch() as sc_:
+        exc, log, writes = gc.call_main(rg, argv)
+        files = sc_.listing()
+        if exc is not None or len(files) != 1:
+            res.update(verdict="violated", what="generator main() raised %r or did not write one file (%s)" % (exc, files), case={"cli": p})
+            return res
+        gamesd = cr.read_dict_from_file(files[0])
+    moves, rewards, loose = rg.gen_rnd_board(p["seed"], p["length"], p["width"], p["p_loose"], p["max_reward"], p["force_down"])
+    problems = []
+    for var in "abc":
+        model = rm.build_model(moves, rewards, loose, p["p_tile"], p["p_robot"], p["p_light"], var)
+        try:
+            ok, info = rm.bisimilar(rm.from_game(gamesd["game_" + var]), model)
+        except Exception as e:
+            ok, info = False, {"path": "game cannot be walked: %r" % e}
+        monitors.MON.count("c08.bisimulations")
+        res["stats"]["bisimulations"] = res["stats"].get("bisimulations", 0) + 1
+        if not ok:
+            problems.append({"variant": var, "problem": "game %s written by main() is not bisimilar to the board's rules with the probabilities given on the command line" % var.upper(),
+                             "path": info.get("path")})
+    if problems:
+        res.update(verdict="violated", what="%s; path %s" % (problems[0]["problem"], str(problems[0]["path"])[:300]), witness=problems, case={"cli": p})
+    if idx % 30 == 0:
+        res["sample"] = {"argv": argv, "bisimilar_ABC": not problems}
+    return res
+
+
 def plan(tier, seed):
     b = harness.split("SMALL", N_SMALL, 900 if tier == "quick" else 900)
+    b += harness.split("CLI", 90 if tier == "quick" else 1500, 15 if tier == "quick" else 100)
     b += harness.split("RND", 300 if tier == "quick" else 6000, 20 if tier == "quick" else 200)
     b += harness.split("MANUAL", 100 if tier == "quick" else 1500, 20 if tier == "quick" else 100)
     return b
@@ -126,6 +169,11 @@ def run_batch(batch):
             yield r
         return
     rg = monitors.mods()["roberta_generator"]
+    if cls == "CLI":
+        for idx in range(lo, hi):
+            EMIT_START(idx)
+            yield decide_cli(idx, seed)
+        return
     for idx in range(lo, hi):
         EMIT_START(idx)
         rng = games.case_rng(seed, PID, cls, idx)
@@ -147,6 +195,8 @@ def finish(agg):
 
 def replay(case):
     monitors.install()
+    if "cli" in case:
+        return {"verdict": "inconclusive", "what": "CLI case: rerun the generator with the recorded parameters", "case": case}
     return decide_board(0, "REPLAY", case["moves"], case["rewards"], case["loose"], *case["probs"], manual=case.get("manual", False))
 
 
